@@ -1,8 +1,36 @@
+import json
+import os
+import subprocess
+
+
+def race_post(ctx, rows, info, broken):
+    """Concurrent half: race the real RemoveTimeBucket against AddTimeBucket (harness/cmd/c17race) and report the
+    outcome as a listed finding class; Properties/C17conc.v holds the model-level refutation."""
+    if info.get("replay"):
+        return
+    root = os.path.dirname(os.path.dirname(os.path.abspath(__file__)))
+    exe = os.path.join(root, "harness", "bin", "c17race")
+    desc = json.load(open(os.path.join(root, "corpus", "C17conc", "race_destroy_create.json")))
+    try:
+        p = subprocess.run([exe] + desc["args"], stdout=subprocess.PIPE, stderr=subprocess.DEVNULL, timeout=120, text=True)
+        out = [l for l in p.stdout.splitlines() if l.startswith("{") and '"level"' not in l]
+        res = json.loads(out[-1]) if out else {"hit": False, "err": "no output (exit %d)" % p.returncode}
+    except Exception as ex:  # noqa: BLE001
+        res = {"hit": False, "err": str(ex)}
+    info.setdefault("extra_coverage", {})["race_destroy_create"] = res
+    if res.get("hit"):
+        rows.append({"source": "race:corpus/C17conc/race_destroy_create.json", "input": desc, "obs": res, "holds": False,
+                     "class": "destroy-races-create", "detail": "catalog_only=%s disk_only=%s" % (res.get("catalog_only"), res.get("disk_only")),
+                     "in_domain": False, "tags": ["race"], "nontrivial": False, "key": "race"})
+    else:
+        ctx.notes.append("race Destroy || Create not hit in %s trials (%s)" % (res.get("trials"), res.get("err", "")))
+
+
 SPEC = {
     "id": "C17",
-    "coq_props": ["Properties/C17.v", "Corr/C17.v"],
-    "module": "MS.Properties.C17",
-    "theorems": ["C17_seq_K1", "C17_seq_K2", "C17_anyname_refuted"],
+    "coq_props": ["Properties/C17.v", "Properties/C17conc.v", "Corr/C17.v"],
+    "module": "MS.Properties.C17 MS.Properties.C17conc",
+    "theorems": ["C17_seq_K1", "C17_seq_K2", "C17_anyname_refuted", "C17conc_refuted"],
     "corr_require": "Require Import MS.Corr.C17.",
     "agrees": "C17.agrees",
     "in_domain": "C17.in_domain",
@@ -36,4 +64,5 @@ SPEC = {
     "level_note": "No axioms. The general statement over all names/years (C17_seq_general) is stated, not proved. Concurrent half: refutation witness on an interleaving model + race replay "
                   "of the real RemoveTimeBucket against AddTimeBucket (no LTS proof of the positive direction). Modelled not verified: catalog/catalog.go, frontend/write.go, executor/writer.go (catalog part).",
     "design_ref": "§6 C17",
+    "post": race_post,
 }
